@@ -1309,3 +1309,111 @@ Proof.
 Qed.
 Lemma init_file_valid s : valid s -> est_valid (init_est (buf_of_bytes s)).
 Proof. intro H. apply init_est_valid, buf_of_bytes_valid, H. Qed.
+
+(* ---------- Y ---------- *)
+Lemma refines_Y rows e y cnt e1 l0 : plain_reg y ->
+  let b := s_buf e in let s := s_vs e in
+  buf_wf b -> cursor_ok b (v_row s) (v_off s) -> getl b (v_row s) = Some l0 -> 0 <= cnt ->
+  exec1 rows (c_Y y cnt) e = Some e1 ->
+  let r2 := Z.min (v_row s + Z.max 1 cnt - 1) (blen b - 1) in
+  s_buf e1 = b /\ reg_get (s_regs e1) y = Some (flat (concat (rows_between b (v_row s) (r2 + 1))), true) /\
+  v_row (s_vs e1) = v_row s /\ v_off (s_vs e1) = v_off s.
+Proof.
+  intros Hy b s HW Hc El Hn X r2.
+  assert (Hr : 0 <= v_row s < blen b) by (apply getl_some in El; lia).
+  pose proof (getl_wf _ _ _ HW El) as Wl.
+  assert (Hok : off_ok l0 (v_off s)) by (unfold cursor_ok in Hc; rewrite El in Hc; exact Hc).
+  assert (RN : ren_noeol (getl b (v_row s)) (v_off s) = v_off s) by (rewrite El; apply ren_noeol_id; assumption).
+  assert (Ecnt : (if cnt =? 0 then 1 else cnt) * (if 0 =? 0 then 1 else 0) = Z.max 1 cnt) by (destruct (Z.eqb_spec cnt 0); cbn; lia).
+  assert (T : op_target b rows s cnt 0 TDbl (ren_noeol (getl b (v_row s)) (v_off s)) = TOk Kunder r2 (-1) (v_cl s) (v_cc s) (v_pcol s)).
+  { unfold op_target. rewrite Ecnt. fold r2. destruct (Z.ltb_spec r2 0); [unfold r2 in *; lia|]. reflexivity. }
+  change (exec1 rows (c_Y y cnt) e) with (exec_op rows e y cnt Oy 0 TDbl []) in X.
+  pose proof (yank_spec rows e y cnt 0 TDbl Kunder r2 (-1) (v_cl s) (v_cc s) (v_pcol s) e1 Hy T X) as [Y1 Y2]. fold b s in Y1, Y2.
+  rewrite (exec_op_yank rows e y cnt 0 TDbl Kunder r2 (-1) (v_cl s) (v_cc s) (v_pcol s) T) in X. fold b s in X.
+  destruct (vc_region_line b Kunder (v_row s) (ren_noeol (getl b (v_row s)) (v_off s)) r2 (-1) ltac:(lia)) as (G1 & G2 & G3).
+  set (g := vc_region b Kunder (v_row s) (ren_noeol (getl b (v_row s)) (v_off s)) r2 (-1)) in *.
+  assert (Hr2 : v_row s <= r2 < blen b) by (unfold r2; lia).
+  rewrite Z.min_l in G2 by lia. rewrite Z.max_r in G3 by lia. rewrite G1, G2 in X.
+  split; [exact Y1|]. split.
+  - fold b in Y2. rewrite Y2. unfold region_text. rewrite G1, G2, G3. f_equal. f_equal. f_equal.
+    destruct (range_split b (v_row s) r2 ltac:(lia) ltac:(lia)) as (pre & x & post & Eb & Lp & Lx).
+    assert (Hx : x <> []) by (intro; subst x; cbn [length] in Lx; lia).
+    rewrite Eb, <- Lp. replace r2 with (Z.of_nat (length pre) + Z.of_nat (length x) - 1) at 1 by lia.
+    rewrite (region_lines pre x post Hx). replace (r2 + 1) with (Z.of_nat (length pre) + Z.of_nat (length x)) by lia.
+    rewrite rows_between_decomp. reflexivity.
+  - inversion X; subst e1. clear X. set (st := vs_pos _ _ _).
+    assert (Hrow : 0 <= v_row st < blen b) by (unfold st; cbn [vs_pos v_row]; lia).
+    rewrite finish_row, finish_off by exact Hrow. unfold st. cbn [vs_pos v_row v_off]. split; [reflexivity|exact RN].
+Qed.
+
+(* ---------- s and C with plain text ---------- *)
+Lemma refines_change_plain rows e (toend : bool) y cnt typed e1 body : plain_reg y ->
+  let b := s_buf e in let s := s_vs e in
+  buf_wf b -> cursor_ok b (v_row s) (v_off s) -> getl b (v_row s) = Some (body ++ [nlc]) -> 0 <= cnt ->
+  forallb plain_key typed = true -> existsb (fun c => negb (is_blankc c)) typed = true ->
+  exec1 rows (if toend then c_C y cnt typed else c_s y cnt typed) e = Some e1 ->
+  let o := v_off s in
+  let z := if toend then Z.of_nat (length body) else Z.min (o + Z.max 1 cnt) (Z.of_nat (length body)) in
+  s_buf e1 = set_row b (v_row s) [firstn (Z.to_nat o) body ++ typed ++ skipn (Z.to_nat z) body ++ [nlc]] 1 /\
+  reg_get (s_regs e1) y = Some (flat (firstn (Z.to_nat (z - o)) (skipn (Z.to_nat o) body)), false) /\
+  v_row (s_vs e1) = v_row s /\ v_off (s_vs e1) = o + slen typed - 1.
+Proof.
+  intros [Hy Hq] b s HW Hc El Hn Hp Hnb X o z.
+  set (l := body ++ [nlc]) in *. pose proof (getl_wf _ _ _ HW El) as Wl. pose proof (wf_body body Wl) as Hb.
+  assert (Hs : slen l = Z.of_nat (length body) + 1) by (unfold l, slen; rewrite app_length; cbn [length]; lia).
+  assert (Hok : off_ok l o) by (unfold cursor_ok in Hc; rewrite El in Hc; exact Hc). destruct Hok as [H0 H1].
+  assert (Hr : 0 <= v_row s < blen b) by (apply getl_some in El; lia).
+  assert (Hlt : (1 <= length typed)%nat) by (destruct typed; [discriminate|cbn; lia]).
+  pose proof (plain_nonl typed Hp) as Ht.
+  set (k := if toend then LD else Lx).
+  pose proof (line_target rows b s cnt k l HW Hc El Hn) as T. cbv zeta in T.
+  set (mk := match k with Lx => Kspace | LX => Kbs | LD => Kdollar end) in *.
+  assert (Eo2 : match k with Lx => Z.min (v_off s + Z.max 1 cnt) (slen l - 1) | LX => Z.max (v_off s - Z.max 1 cnt) 0 | LD => slen l - 1 end = z)
+    by (unfold k, z, o; destruct toend; lia).
+  rewrite Eo2 in T.
+  assert (Hz : o <= z <= Z.of_nat (length body)) by (unfold z; destruct toend; fold o in H1; lia).
+  assert (EX : exec1 rows (if toend then c_C y cnt typed else c_s y cnt typed) e = exec_op rows e y cnt Oc 0 (TMot mk) typed)
+    by (unfold mk, k; destruct toend; reflexivity).
+  rewrite EX in X. clear EX.
+  assert (Hincl : incl_key mk = false) by (unfold mk, k; destruct toend; reflexivity).
+  assert (RN : ren_noeol (getl b (v_row s)) (v_off s) = o) by (rewrite El; apply ren_noeol_id; [exact Wl|split; assumption]).
+  assert (Hoo : off_ok l (Z.min (ren_noeol (getl b (v_row s)) (v_off s)) z)).
+  { rewrite RN. unfold off_ok. split; [lia|]. destruct H1 as [H1|[H1 H1']]; [left; lia|right; lia]. }
+  destruct (vc_region_same_row b mk (v_row s) (ren_noeol (getl b (v_row s)) (v_off s)) z l HW El ltac:(lia) Hoo) as (G1 & G2 & G3 & G4 & G5).
+  rewrite Hincl in G5. cbn [andb] in G5. rewrite RN in *.
+  replace (Z.min o z) with o in G4 by lia. replace (Z.max o z) with z in G5 by lia.
+  unfold exec_op in X. fold b s in X. rewrite RN, T in X.
+  change (v_row (vs_mot s (v_cl s) (v_cc s) (v_pcol s))) with (v_row s) in X.
+  set (g := vc_region b mk (v_row s) o (v_row s) z) in *.
+  unfold vi_change, region_text in X. rewrite G1, G2, G3, G4, G5 in X. unfold lbuf_region in X. rewrite El, Z.eqb_refl in X. cbn [optl orb] in X.
+  destruct (Z.eqb_spec (blen b) 0); [lia|].
+  assert (E1 : sub_l l 0 o = firstn (Z.to_nat o) body) by (rewrite sub_l_firstn by lia; unfold l; apply firstn_body; lia).
+  assert (E2 : sub_l l z (-1) = skipn (Z.to_nat z) body ++ [nlc]) by (rewrite sub_l_skipn by lia; unfold l; apply skipn_body; lia).
+  assert (E3 : sub_l l o z = firstn (Z.to_nat (z - o)) (skipn (Z.to_nat o) body)).
+  { rewrite sub_l_mid by lia. unfold l. rewrite skipn_body by lia. apply firstn_body. rewrite skipn_length. lia. }
+  rewrite E1, E2, E3 in X.
+  rewrite vi_input_plain in X; try assumption; [|apply Forall_firstn', Hb|apply body_wf, Forall_skipn', Hb].
+  cbn [nextlines snd] in X. replace (v_row s + 1 - 1) with (v_row s) in X by lia.
+  set (nb := firstn (Z.to_nat o) body ++ typed ++ skipn (Z.to_nat z) body).
+  assert (ENB : firstn (Z.to_nat o) body ++ typed ++ skipn (Z.to_nat z) body ++ [nlc] = nb ++ [nlc])
+    by (unfold nb; rewrite <- !app_assoc; reflexivity).
+  rewrite ENB in *.
+  assert (Wn : line_wf (nb ++ [nlc])).
+  { apply body_wf. unfold nb. apply Forall_app. split; [apply Forall_firstn', Hb|]. apply Forall_app. split; [exact Ht|apply Forall_skipn', Hb]. }
+  replace (v_row s + 1) with (v_row s + Z.of_nat 1) in X by lia.
+  rewrite lbuf_edit_some in X by (cbn; lia). rewrite (split_text_line _ Wn) in X. change (Z.of_nat 1) with 1 in X.
+  match type of X with context [finish rows ?bb _ _ _] => remember bb as b' eqn:Eb' end.
+  assert (Hb' : blen b' = blen b).
+  { rewrite Eb'. unfold set_row, blen in *. rewrite !app_length, firstn_length, skipn_length. cbn [length]. lia. }
+  assert (G : getl b' (v_row s) = Some (nb ++ [nlc])).
+  { rewrite Eb'. unfold getl, set_row. destruct (Z.ltb_spec (v_row s) 0); [lia|]. unfold blen in Hr.
+    rewrite nth_error_app2 by (rewrite firstn_length; lia). rewrite firstn_length, Nat.min_l by lia. rewrite Nat.sub_diag. reflexivity. }
+  inversion X; subst e1. clear X. set (st := vs_top _ _).
+  assert (Hrow : 0 <= v_row st < blen b') by (unfold st; cbn [vs_top vs_pos v_row]; lia).
+  rewrite finish_buf, finish_regs, finish_row, finish_off by exact Hrow. unfold st. cbn [vs_top vs_pos v_row v_off]. rewrite G.
+  assert (Lf : slen (firstn (Z.to_nat o) body) = o) by (unfold slen; rewrite firstn_length; lia).
+  rewrite Lf. replace (Z.max 0 (o + slen typed - 1)) with (o + slen typed - 1) by (unfold slen; lia).
+  repeat split; try reflexivity; [exact Eb'|apply put_get_plain; assumption|].
+  apply ren_noeol_id; [exact Wn|]. unfold off_ok, slen. rewrite app_length. unfold nb. rewrite !app_length, firstn_length, skipn_length.
+  cbn [length]. lia.
+Qed.
